@@ -174,6 +174,43 @@ def enumerate_sites(prog, cg, reach):
 ORDER_TERMS = {("p", "order"), ("f", ("p", "request"), "order"), ("up", "order"), ("f", ("up", "request"), "order")}
 
 
+def _slice_of(t):
+    """The slice expression a length term talks about, stripped of references, derefs and unsizing casts."""
+    while True:
+        t = T.strip_refs(t)
+        if t[0] == "cast":
+            t = t[1]
+            continue
+        if t[0] == "*":
+            t = t[1]
+            continue
+        return t
+
+
+def same_len(ln, t):
+    """Is term t the length that the bounds check compares against (ln)? Syntactic: same term, slice::len / PtrMetadata of the
+    same slice expression, or the length argument of the from_raw_parts call that created the slice."""
+    t = T.strip_casts(t)
+    ln = T.strip_casts(ln)
+    if T.canon(ln) == T.canon(t):
+        return True
+
+    def slice_expr(x):
+        if x[0] == "un" and x[1] == "PtrMetadata":
+            return _slice_of(x[2])
+        if x[0] == "call" and x[1] == "slice::len":
+            return _slice_of(x[2][0])
+        return None
+    a, c = slice_expr(ln), slice_expr(t)
+    if a is not None and c is not None and T.canon(a) == T.canon(c):
+        return True
+    if a is not None and a[0] == "call" and a[1] in ("core::slice::from_raw_parts", "core::slice::from_raw_parts_mut",
+                                                       "core::slice::raw::from_raw_parts", "core::slice::raw::from_raw_parts_mut"):
+        if T.canon(T.strip_casts(a[2][1])) == T.canon(t):
+            return True
+    return False
+
+
 def auto_discharge(prog, cg, site):
     """Returns a reason string or None."""
     b = cg.bodies[site.fn]
@@ -262,13 +299,15 @@ def auto_discharge(prog, cg, site):
                         hi = T.const_val(T.strip_casts(z[2][1]))
                         if hi is not None and hi <= vl and T.canon(ix) == T.canon(("f", ("as", y, "Some"), 0, None)):
                             return "D3: index iterates a range ending at %d <= len %d" % (hi, vl)
-        # index produced by iterating 0..len of the same slice
+        # index produced by iterating lo..len of the same slice
         for y in T.walk(ix):
             if y[0] == "call" and y[1].endswith("::next"):
                 src = y[2][0]
-                if any(z[0] == "call" and z[1] == "slice::len" for z in T.walk(src)) or any(z[0] == "un" and z[1] == "PtrMetadata" for z in T.walk(src)):
-                    if T.canon(ix) == T.canon(("f", ("as", y, "Some"), 0, None)):
-                        return "D3: index iterates 0..len of the indexed slice"
+                if T.canon(ix) != T.canon(("f", ("as", y, "Some"), 0, None)):
+                    continue
+                for z in T.walk(src):
+                    if z[0] == "agg" and z[1].startswith("adt:core::ops::range::Range::Range") and len(z[2]) == 2 and same_len(ln, z[2][1]):
+                        return "D3: index iterates lo..len of the indexed slice"
         # dominating guard ix < len
         for s, d in lib.controlling_edges(b, site.block):
             cnd = tm.operand(b.term(s)["discr"])
@@ -276,7 +315,10 @@ def auto_discharge(prog, cg, site):
             cmp_ = lib.normalize_cmp(cnd) if cnd[0] == "bin" else None
             if cmp_ and pol is not None:
                 lhs, rel, rhs = cmp_ if pol else lib.negate_rel(cmp_)
-                if rel == "lt" and T.canon(lhs) == T.canon(ix):
+                if rel in ("gt", "ge"):
+                    lhs, rhs, rel = rhs, lhs, {"gt": "lt", "ge": "le"}[rel]
+                vr = T.const_val(T.strip_casts(rhs))
+                if rel == "lt" and T.canon(lhs) == T.canon(ix) and (same_len(ln, rhs) or (vr is not None and vl is not None and vr <= vl)):
                     return "D2: dominated by index < %s" % T.show(rhs)[:40]
         return None
     return None
